@@ -69,6 +69,20 @@ pub fn check_rules(program: &Program, layout: &Layout, fam: &str, out: &mut Case
                 let mut codes: Vec<&str> = errs.iter().map(|e| e.code.as_str()).collect();
                 codes.sort();
                 codes.dedup();
+                // Rules that are checked in ONE phase are all checked: when none of the violated rules belongs to a phase
+                // that ends the compilation before the validators run (parsing, attribute and type patching, cycles,
+                // redefinitions), every violated rule is reported - a rule must not fall silent because another one
+                // of the same phase fired.
+                const GATING: [&str; 13] = ["E002", "E010", "E014", "E017", "E019", "E021", "E024", "E027", "E028", "E030", "E031", "E032", "E033"];
+                if !allowed.iter().any(|c| GATING.contains(c)) {
+                    let missing: Vec<&&str> = allowed.iter().filter(|c| !codes.contains(*c)).collect();
+                    if !missing.is_empty() {
+                        out.violate(
+                            format!("c04/{fam}/rule-of-the-same-phase-not-reported/{}", missing[0]),
+                            format!("the program violates rules with codes {allowed:?}, all checked by the validators in one pass, but only {codes:?} were reported\n--- input ---\n{}", input()),
+                        );
+                    }
+                }
                 format!("rejected:{}", codes.join(","))
             }
         }
@@ -996,10 +1010,79 @@ impl RuleFamily for AttributeOnContainerAndMember {
     }
 }
 
+/// "A module declaration before definitions": texts the model cannot express (it has a module or it has none) - the
+/// module after a definition, two modules, a file attribute after the module - each alone and next to healthy files.
+pub struct ModulePlacement;
+/// (text, must be rejected)
+const MP_TEXTS: [(&str, bool); 14] = [
+    ("struct Q {}\nmodule M\n", true),
+    ("struct Q {}\nmodule M\nstruct R {}\n", true),
+    ("module M\nstruct A {}\nmodule N\nstruct B {}\n", true),
+    ("module M\nmodule M\n", true),
+    ("module M\nmodule N\nstruct B {}\n", true),
+    ("module M\n[[allow(All)]]\nstruct A {}\n", true),
+    ("struct A {}\n[[allow(All)]]\nmodule M\n", true),
+    ("custom C\n", true),
+    ("typealias T = int32\n[[allow(All)]]\n", true),
+    ("[[allow(All)]]\nmodule M\nstruct A {}\n", false),
+    ("module M\n", false),
+    ("", false),
+    ("// only a comment\n\n", false),
+    ("[[allow(All)]]\n", false),
+];
+impl ModulePlacement {
+    fn texts(idx: u64) -> (Vec<String>, bool, usize) {
+        let (t, reject) = MP_TEXTS[(idx % MP_TEXTS.len() as u64) as usize];
+        let healthy = |k: usize| format!("module H{k}\nstruct Fine{k} {{ a: int32 }}\n");
+        match idx / MP_TEXTS.len() as u64 {
+            0 => (vec![t.to_string()], reject, 0),
+            1 => (vec![healthy(1), t.to_string()], reject, 1),
+            2 => (vec![t.to_string(), healthy(1)], reject, 0),
+            _ => (vec![healthy(1), t.to_string(), healthy(2)], reject, 1),
+        }
+    }
+}
+impl Family for ModulePlacement {
+    fn name(&self) -> String {
+        format!("module-placement/{} texts (module after a definition, two modules, a file attribute after the module or after a definition, definitions without a module; controls: attributes first, a module alone, an empty file, comments only, file attributes only) x alone / behind / before / between healthy files", MP_TEXTS.len())
+    }
+    fn len(&self) -> u64 {
+        MP_TEXTS.len() as u64 * 4
+    }
+    fn describe(&self, idx: u64) -> Value {
+        let (files, reject, at) = Self::texts(idx);
+        serde_json::json!({"files": files, "must_be_rejected": reject, "file_in_question": at})
+    }
+    fn run(&self, idx: u64) -> CaseOut {
+        let (files, reject, _) = Self::texts(idx);
+        let mut out = CaseOut::new(hash_str(&format!("c04mp{files:?}")));
+        out.validated = 1;
+        out.nontrivial = reject;
+        let refs: Vec<&str> = files.iter().map(|s| s.as_str()).collect();
+        let input = || files.join("\n--- next file ---\n");
+        match compile_texts(&refs, None) {
+            Err((loc, msg)) => out.violate(format!("c04/module-placement/panic@{loc}"), format!("{msg}\n--- input ---\n{}", input())),
+            Ok((_, _, diags)) => {
+                let errors: Vec<&DiagObs> = diags.iter().filter(|d| d.level == "error").collect();
+                if reject && errors.is_empty() {
+                    out.violate("c04/module-placement/ill-placed-module-accepted", format!("the file has no module declaration before its first definition (or more than one, or a file attribute behind it) and must be rejected\n--- input ---\n{}", input()));
+                }
+                if !reject && !errors.is_empty() {
+                    out.violate(format!("c04/module-placement/well-formed-file-rejected/{}", errors[0].code), format!("{} {}\n--- input ---\n{}", errors[0].code, errors[0].message, input()));
+                }
+                out.class = format!("reject={reject}:{}", errors.first().map_or("none", |e| e.code.as_str()));
+            }
+        }
+        out
+    }
+}
+
 pub fn families(tier: &str) -> Vec<Box<dyn Family>> {
     let mut v: Vec<Box<dyn RuleFamily>> = vec![Box::new(Names), Box::new(Streams), Box::new(Literals), Box::new(EnumBounds), Box::new(Keys::new()), Box::new(Attributes::new()), Box::new(AttributeOnContainerAndMember::new()), Box::new(Tags), Box::new(Pairs { depth: 2 }), Box::new(InheritedOperations)];
     if tier != "quick" {
         v.push(Box::new(Pairs { depth: 3 }));
     }
-    v.into_iter().map(|f| Box::new(RuleCheck { inner: f }) as Box<dyn Family>).collect()
+    let mut out: Vec<Box<dyn Family>> = v.into_iter().map(|f| Box::new(RuleCheck { inner: f }) as Box<dyn Family>).collect();
+    out.push(Box::new(ModulePlacement));
+    out
 }
